@@ -11,6 +11,22 @@ CLAIMS = {
    text="Machine-checked theorems (all byte strings, any length, any amount of '=' padding): round trip, alphabet, injectivity, over an exact Gallina model of CPython's lenient base64 decoder; the model is tied to the code by exhaustive (length 0-2) and seeded differential execution.",
    note="CPython's base64/binascii are modelled exactly and validated differentially, not verified. No axioms (Print Assumptions: closed).",
    technique="Coq proof by induction in steps of three bytes + lia; correspondence check via extracted OCaml model", ref="3/C14"),
+ "C01": dict(
+   text="Theorems, for every oracle behaviour, policy and credential (no cryptographic hypothesis): verify_auth accepts IFF the declarative predicate AuthAccepted holds (id=b64url(rawId), type, webauthn.get, challenge, origin, rpIdHash, UP, UV-if-required, counter, signature over authData||SHA-256(clientDataJSON) under the stored key with the scheme its declared alg denotes); hence any deviation is rejected. Model tied to the code by regenerated constants and by differential execution on really-signed single faults, pairs, and JSON mutations.",
+   note="Soundness needs no oracle hypothesis. CPython json/base64 and cbor2 (subset) are modelled; cryptography is an oracle.",
+   technique="Coq proof (error-monad inversion, iff characterisation) + correspondence/fault-catalogue differential check", ref="3/C01"),
+ "C07": dict(
+   text="Theorems: counter_ok s c <-> c>s or c=s=0 (lia); acceptance implies the rule and new_sign_count = big-endian bytes 33..37, 0<=c<2^32; for EVERY history of presentations (induction, any length, any oracle) the stored counter is non-decreasing and a non-zero-counter assertion is never accepted twice. Correspondence: boundary grid, random pairs, exhaustive short histories through the real API.",
+   note="Raw record inputs are assumed to consist of bytes (cred_wf); text/dict inputs need no assumption (decoder output proved in range).",
+   technique="Coq proof by induction over presentation histories + lia; differential histories", ref="3/C07"),
+ "C09": dict(
+   text="Theorems: the behaviourally exported scheme table (regenerated each run from the code via spy keys) equals the property's table for ALL integer algorithm ids (finite table agreement by vm_compute + coverage lemma lifted to Z); on the COSE path decode->to_crypto->verify_signature a signature is accepted only under the scheme the declared alg denotes; unsupported pairings raise a library exception. Correspondence: complete key x declared alg x signing scheme matrix with real keys, leading-zero keys.",
+   note="verify_signature ignores alg for Ed25519 keys; the theorem is stated for the composed COSE path where alg=-8 is enforced by to_crypto. PSS verification accepts any salt length (library fact).",
+   technique="Coq proof over regenerated table (vm_compute on finite table, lifting lemmas) + exhaustive matrix differential check", ref="3/C09"),
+ "C10": dict(
+   text="Theorems: for all 256 flag bytes the code's mask tests are bits 0,2,3,4,6,7 (finite sweep by vm_compute, lifted; bound in the statement); reserved bits 1,5 never influence a flag; acceptance implies UP, UV-if-required, not(BS without BE) and the reported fields equal the bits. Correspondence: all 256 x policies x both ceremonies, really signed (exhaustive).",
+   note="Finite-domain theorems carry their bound (0<=f<256) in the statement.",
+   technique="Coq proof (finite sweep lifted by forallb_forall; inversion) + exhaustive differential check", ref="3/C10"),
 }
 REASON_TODO = "check not built yet in this revision (planned: Coq model + correspondence, see DESIGN.md section 3)"
 def main():
